@@ -428,9 +428,22 @@ func TestC14RateLimit(t *testing.T) {
 	defer func() {
 		S.Close()
 		world.StopAllLeaked()
+		os.RemoveAll(dir)
 	}()
 	S.Register(gca.Pub, temp)
+	born := time.Now()
 	rapid.Check(t, func(t *rapid.T) {
+		// a server of the test build ends the process after 120 s of life: take a fresh one in time
+		if time.Since(born) > fixtureMaxAge {
+			S.Close()
+			os.RemoveAll(dir)
+			dir = world.NewServerDir(temp.Pub)
+			if S, err = world.StartServer(dir); err != nil {
+				t.Fatalf("C14: fresh server: %v", err)
+			}
+			S.Register(gca.Pub, temp)
+			born = time.Now()
+		}
 		time.Sleep(win + 5*time.Millisecond) // start every case with an empty window
 		if rapid.IntRange(0, 2).Draw(t, "staggered") == 0 {
 			// one early request, limit-1 shortly before it expires, limit+1 shortly after
